@@ -18,6 +18,7 @@ pub fn dispatch(mode: &str, engine: &str, rest: &[String]) -> anyhow::Result<()>
         ("record", "natcat") => natcat::record(rest),
         ("record", "opt") => sem::record_opt(rest),
         ("record", "det") => det::record(rest),
+        ("replay", "frz") => sem::replay_frozen(rest),
         _ => anyhow::bail!("unknown mode/engine {} {}", mode, engine),
     }
 }
